@@ -411,4 +411,8 @@ def run(ctx):
     c03.rule_accept(ctx)
     from . import c08
     c08.rule_level_flow(ctx)
+    from . import c11
+    c11.rule_nested_fresh(ctx, "reply-shape")      # the ListOffsets v0 builder assembles (partition, timestamp, 1) lists per topic
+    from .common import rule_instance_state
+    rule_instance_state(ctx, ("aiokafka.consumer.",))
     rep.nd("that the offsets the broker reports are what is finally consumed")
